@@ -131,13 +131,24 @@ a = fresh(MK, 1)[0]
 a.fill((0.5, 1.5, "a", 1.0)); a.fill((k * 1.0, 0.25, "b", 2.5))
 s = a * 0.5
 h1 = hash(s)
+if not isinstance(h1, int): return "hash-of-scaled-result-is-not-an-int"
 s2 = a * 0.5
-if hash(s2) != h1: return "hash-of-equal-scaled-results-differs"
 txt = repr(s)
 ch = s.children
 jj = J(s)
+# equal results must hash alike - asserted only for states without NaN fields: CPython >= 3.10 hashes a NaN by object
+# identity, so two equal aggregators that hold (different) NaN objects hash differently; C08 asks that the scaled
+# result "can be hashed", not for more than Python's own float hashing gives
+if not _has_nan(jj) and hash(s2) != h1: return "hash-of-equal-scaled-results-differs"
 """
-    return Harness(f"C08/hash/{tree.name}", [("k", "int")], "0 <= k <= 2", body, timeout=timeout, setup=_setup(tree),
+    has_nan = '''
+def _has_nan(doc):
+    if isinstance(doc, str): return doc == "nan"
+    if isinstance(doc, dict): return any(_has_nan(v) for v in doc.values())
+    if isinstance(doc, (list, tuple)): return any(_has_nan(v) for v in doc)
+    return False
+'''
+    return Harness(f"C08/hash/{tree.name}", [("k", "int")], "0 <= k <= 2", body, timeout=timeout, setup=_setup(tree) + has_nan,
                    tree=tree.expr, bounds=bounds_text(tree, 2, data="concrete records, selector k in 0..2, factor 0.5"))
 
 
